@@ -58,6 +58,9 @@ def run_scenario(model: Model, s):
             continue
         try:
             results = list(getattr(o, "checks", [])) + list(s.check(o))
+            if s.compat is not None:
+                from .spec import SpecIt
+                results += list(s.compat(SpecIt(o.space, o.facts), o))
         except Unmodelled as e:
             obs.append(Ob("E5-CHAIN", pk, ERROR, model.where(f), s.name, f"specification could not be evaluated on path [{path}]: {e}"))
             continue
@@ -91,6 +94,7 @@ def scenarios():
     from . import scenarios as sc
     from . import scenarios2  # noqa: F401  (further catalogues register themselves)
     from . import scenarios3  # noqa: F401
+    from . import scenarios4  # noqa: F401
     return sc.SCENARIOS
 
 
@@ -111,7 +115,7 @@ def unification_obligations(model: Model, tier: str):
         o, unis = run_scenario(model, s)
         # must-raise scenarios and analysis errors belong to C18 as well
         for ob in o:
-            if ob.rule == "E5-RAISE" or (ob.status == ERROR and "C18" in s.props):
+            if ob.rule == "E5-RAISE" or (ob.status == ERROR and "C18" in s.props) or (":compat." in ob.key and "C18" in s.props):
                 obs.append(ob)
         for sc, path, u in unis:
             k = f"{sc.func}:E5-UNIFY:{sc.name}:{u['a']}~{u['b']}:{u['ctx'][:40]}"
